@@ -25,6 +25,7 @@ import (
 	"github.com/bokysan/socketace/v2/internal/util/enc"
 	"github.com/bokysan/socketace/v2/verifharness/bubble"
 	"github.com/bokysan/socketace/v2/verifharness/mc"
+	"github.com/bokysan/socketace/v2/verifharness/world"
 	"github.com/miekg/dns"
 	"golang.org/x/net/dns/dnsmessage"
 )
@@ -48,9 +49,13 @@ type fakeWriter struct {
 	msgs   []*dns.Msg
 }
 
-func (f *fakeWriter) LocalAddr() net.Addr         { return &net.UDPAddr{IP: net.IPv4(127, 0, 0, 1), Port: 53} }
-func (f *fakeWriter) RemoteAddr() net.Addr        { return f.remote }
-func (f *fakeWriter) WriteMsg(m *dns.Msg) error   { f.msgs = append(f.msgs, m); _, err := m.Pack(); return err }
+func (f *fakeWriter) LocalAddr() net.Addr  { return &net.UDPAddr{IP: net.IPv4(127, 0, 0, 1), Port: 53} }
+func (f *fakeWriter) RemoteAddr() net.Addr { return f.remote }
+func (f *fakeWriter) WriteMsg(m *dns.Msg) error {
+	f.msgs = append(f.msgs, m)
+	_, err := m.Pack()
+	return err
+}
 func (f *fakeWriter) Write(b []byte) (int, error) { return len(b), nil }
 func (f *fakeWriter) Close() error                { return nil }
 func (f *fakeWriter) TsigStatus() error           { return nil }
@@ -358,6 +363,50 @@ func evalClient(r *mc.Run, spec answerSpec, e enc.Encoder) {
 	r.State(mc.Hash("client", outcome))
 }
 
+// evalClientLive feeds the malformed answer to a live, real ClientDnsConnection (real
+// communicator, miekg/dns exchange) as the answer to its next data exchange.
+func evalClientLive(t *testing.T, r *mc.Run, spec answerSpec, e enc.Encoder) {
+	r.Eval(1)
+	r.Transition(2)
+	outcome := "ok"
+	res := bubble.Run(t, func() {
+		w, err := world.New(world.Options{Carrier: "dns", Channels: []string{"x"}, DnsRaw: true})
+		if err != nil {
+			outcome = "setup"
+			return
+		}
+		cl, _, err := w.Dns.NewClientConn()
+		if err != nil {
+			outcome = "setup"
+			return
+		}
+		qt := util.QueryTypeNull
+		cl.Serializer.Upstream.QueryType = &qt
+		cl.Serializer.Upstream.Encoder = enc.Base32Encoding
+		cl.Serializer.Downstream.Encoder = e
+		cl.Serializer.Upstream.FragmentSize = 60
+		if err := cl.VersionHandshake(); err != nil {
+			outcome = "setup"
+			return
+		}
+		w.Dns.Path.Answer = func(exch int, q, a *dns.Msg) bool {
+			a.Answer = spec.rrs(q.Question[0].Name)
+			return true
+		}
+		if err := cl.SendAndReceive(nil); err != nil {
+			outcome = "error"
+		}
+		if err := cl.SendAndReceive(&util.Packet{SeqNo: 0, Data: []byte("x")}); err != nil {
+			outcome = "error"
+		}
+	})
+	if res.Panic != "" {
+		outcome = "panic"
+		r.Fail("client-panic|live|"+panicSite(res.Panic), fmt.Sprintf("live client, answer section %s (codec %s): %s", spec.name, e.Name(), strings.SplitN(res.Panic, "\n", 2)[0]), len(spec.name), Case{Side: "client-live", Answer: spec.name, Codec: e.Name()})
+	}
+	r.State(mc.Hash("client-live", outcome))
+}
+
 // ---- enumeration ----------------------------------------------------------------------------
 
 func serverCases(thorough bool) []Case {
@@ -505,12 +554,14 @@ func TestCheck(t *testing.T) {
 	if r.Replay != nil {
 		var c Case
 		r.DecodeReplay(&c)
-		if c.Side == "client" {
+		if c.Side == "client" || c.Side == "client-live" {
 			for _, s := range answerSpecs() {
 				if s.name == c.Answer {
 					for _, e := range clientCodecs {
-						if e.Name() == c.Codec {
+						if e.Name() == c.Codec && c.Side == "client" {
 							evalClient(r, s, e)
+						} else if e.Name() == c.Codec {
+							evalClientLive(t, r, s, e)
 						}
 					}
 				}
@@ -543,6 +594,18 @@ func TestCheck(t *testing.T) {
 				if idx%1501 == 0 {
 					r.Sample(map[string]any{"side": "client", "answer": s.name, "codec": e.Name()})
 				}
+			}
+			idx++
+		}
+	}
+	for si, s := range specs {
+		if strings.HasPrefix(s.name, "NULL-payload-") && len(s.name) > len("NULL-payload-00") && si%16 != 0 && !r.Thorough() {
+			continue // quick: every 16th of the 2-byte payloads on the live path
+		}
+		for _, e := range []enc.Encoder{enc.Base32Encoding, enc.RawEncoding} {
+			if r.Mine(idx) {
+				evalClientLive(t, r, s, e)
+				r.Nontrivial(mc.Hash("client-live", s.name, e.Name()))
 			}
 			idx++
 		}
